@@ -1,3 +1,4 @@
+import MpsProps.Anchors.C19
 import MpsProofs.Typed
 import MpsGen.Hash
 /-
